@@ -9,21 +9,34 @@ import (
 )
 
 func createLockFile(name string, perm os.FileMode) (LockFile, bool, error) {
-	acquiredExisting := false
-	if _, err := os.Stat(name); err == nil {
-		acquiredExisting = true
-	}
-	verifYield("lock.stat")
-	f, err := os.OpenFile(name, os.O_RDWR|os.O_CREATE, perm)
-	if err != nil {
-		return nil, false, err
-	}
-	verifYield("lock.open")
-	if err := syscall.Flock(int(f.Fd()), syscall.LOCK_EX|syscall.LOCK_NB); err != nil {
-		if err == syscall.EWOULDBLOCK {
-			err = os.ErrExist
+	for {
+		acquiredExisting := false
+		if _, err := os.Stat(name); err == nil {
+			acquiredExisting = true
 		}
-		return nil, false, err
+		verifYield("lock.stat")
+		f, err := os.OpenFile(name, os.O_RDWR|os.O_CREATE, perm)
+		if err != nil {
+			return nil, false, err
+		}
+		verifYield("lock.open")
+		if err := syscall.Flock(int(f.Fd()), syscall.LOCK_EX|syscall.LOCK_NB); err != nil {
+			_ = f.Close()
+			if err == syscall.EWOULDBLOCK {
+				err = os.ErrExist
+			}
+			return nil, false, err
+		}
+		// The previous owner may have removed the file after it was opened here.
+		// A lock on a removed file excludes nobody, make sure the locked file is still the one at the path.
+		locked, err := f.Stat()
+		if err != nil {
+			_ = f.Close()
+			return nil, false, err
+		}
+		if current, err := os.Stat(name); err == nil && os.SameFile(locked, current) {
+			return &osLockFile{f, name}, acquiredExisting, nil
+		}
+		_ = f.Close()
 	}
-	return &osLockFile{f, name}, acquiredExisting, nil
 }
